@@ -114,7 +114,7 @@ def situations(luts, tier):
                 ops.append((init, ts))
             kind = ('generic', 'independent', 'zero', 'long', 'mixed')[(r + len(out)) % 5]
             cap = (4, 8, 64, 8, 4)[(r + len(name)) % 5]
-            out.append(dict(name=name, lut=lut, ops=ops, delays=kind, cap=cap, monotone_in=True, ovl_in=None))
+            out.append(dict(name=name, lut=lut, ops=ops, delays=kind, cap=cap, monotone_in=True, ovl_in=None, stale=r % 2))
         # directed: all operands switch at the same instant; a burst on one operand; a non-monotonic operand; a marked operand
         out.append(dict(name=name, lut=lut, ops=[(i % 2, [4.0]) if i < max(width, 1) else None for i in range(4)], delays='generic', cap=8, monotone_in=True, ovl_in=None))
         out.append(dict(name=name, lut=lut, ops=[(1, [1.0, 1.25, 1.5, 1.75, 2.0, 2.25]) if i == 0 else ((0, [1.5]) if i < width else None) for i in range(4)], delays='mixed', cap=4, monotone_in=True, ovl_in=None))
@@ -148,7 +148,7 @@ class Run:
         self.z_mem = len(rows)
         self.c_locs.append(self.z_mem)
         self.c_caps.append(cap)
-        st = [K['TMIN'], 1.0, K['TMIN'], 2.0] if stale else [STALE] * 4
+        st = ([K['TMIN'], 1.0, K['TMIN'], 2.0] if sit.get('stale', 0) else [0.5, K['TMIN'], 1.0, K['TMIN']]) if stale else [STALE] * 4
         rows += [[st[k % 4]] for k in range(cap)]
         rows += [[STALE]] * 3
         # lane 0 holds something else (garbage waveforms), lane 1 is the evaluated one
